@@ -14,9 +14,20 @@ exec(open(f'{V}/tools/claims.py').read())
 
 out = subprocess.run([f'{V}/bin/mverif', 'list'], capture_output=True, text=True).stdout
 have = set()
+rules = {}
+cur = None
 for line in out.splitlines():
     if line and not line.startswith(' '):
-        have.add(line.split()[0])
+        cur = line.split()[0]
+        have.add(cur)
+        rules[cur] = []
+    elif line.strip() and cur:
+        rules[cur].append(line.split()[0])
+
+import re
+def rule_sentence(pid):
+    rs = sorted(rules.get(pid, []), key=lambda r: [int(x) if x.isdigit() else x for x in re.split(r'(\d+)', r)])
+    return "Decides the %d rules %s." % (len(rs), ", ".join(rs))
 
 checks = []
 na = []
@@ -24,6 +35,10 @@ for p in props:
     pid = p['id']
     if pid in have and pid in CLAIMS:
         text, note, tech, ref = CLAIMS[pid]
+        # keep the list of rules in step with the checker
+        note = re.sub(r'^Decides rules .*?\.(?= |$)', rule_sentence(pid), note, count=1)
+        if not note.startswith("Decides the"):
+            note = rule_sentence(pid) + " " + note
         checks.append({
             "property_id": pid,
             "quick_cmd": f"bin/mverif check -prop {pid} -tier quick",
